@@ -392,7 +392,16 @@ pub(crate) fn parse_unknown_ifdata(
                     parser.undo_get_token();
                     let floatnum = parser.get_float(context)?; // if this also returns an error, it is neither int nor float, which is a genuine parse error
                     let line_offset = parser.get_line_offset();
-                    items.push(GenericIfData::Float(line_offset, floatnum));
+                    let value = f64::from(floatnum);
+                    if value.fract() == 0.0
+                        && (f64::from(i32::MIN)..=f64::from(i32::MAX)).contains(&value)
+                    {
+                        // e.g. "1e3": this value is written as the integer "1000", so it is stored
+                        // as an integer. Otherwise the data would be different after write + reload
+                        items.push(GenericIfData::Long(line_offset, (value as i32, false)));
+                    } else {
+                        items.push(GenericIfData::Float(line_offset, floatnum));
+                    }
                 }
             }
             A2lTokenType::Begin => {
